@@ -1,13 +1,13 @@
 SPECIFICATION Spec
 CONSTANTS
   Deviations <- AllDevs
-  MaxObjs = 6
-  MinObjs = 5
+  MaxObjs = 4
+  MinObjs = 4
   MaxKids = 2
-  ExplicitNames = {"a"}
-  ListPolicies = {"iter", "rev", "slices", "index"}
-  SeqPolicies = {"call", "direct"}
-  SubPolicy = TRUE
+  ExplicitNames = {}
+  ListPolicies = {"iter"}
+  SeqPolicies = {"call"}
+  SubPolicy = FALSE
 INVARIANT DesignOK
 INVARIANT DesignPairs
 INVARIANT DeviationsExplain
